@@ -327,7 +327,24 @@ def wrap_mech(mech, spec):
         nm = red.parameters()[0]
         red.fix_parameters({nm: 0.7})
         red.fix_parameters({nm: None})
+    if how == 'fixed' and red.n_parameters() >= 2:
+        # one parameter stays fixed (the user fixes another one on his own
+        # object after he has handed it over, see user_fixes_more)
+        red.fix_parameters({red.parameters()[-1]: 0.7})
     return red
+
+
+def toy_n(spec, n_mech):
+    """One more parameter when the user keeps one fixed (free count as asked)."""
+    return n_mech + 1 if spec.get('mech_wrap') == 'fixed' else n_mech
+
+
+def user_fixes_more(mech, spec):
+    """The user goes on configuring HIS model after the hand-over."""
+    if spec.get('mech_wrap') != 'fixed' or mech.n_parameters() < 2:
+        return False
+    mech.fix_parameters({mech.parameters()[0]: 0.9})
+    return True
 
 
 def check_user_mech(mech, step, label):
@@ -344,7 +361,7 @@ def build_ll(spec, n_mech, table_id=None):
     """spec: {'toy': {...}} or {'mech': recipe}; returns (ll, mech, errs)."""
     import chi
     if 'toy' in spec:
-        mech = zoo.toy_mech(n_mech, spec['toy']['n_outputs'])
+        mech = zoo.toy_mech(toy_n(spec, n_mech), spec['toy']['n_outputs'])
     else:
         mech = zoo.build_mech(dict(spec['mech']))
     mech = wrap_mech(mech, spec)
@@ -532,6 +549,28 @@ def run(scenario, world):
             n_mech = max(1, pm.n_dim() - n_err(llspec))
             ll, mech, errs = bl(llspec, n_mech)
             check_ll(ll, vals, step, world, mech, errs)
+            if llspec.get('mech_wrap') == 'fixed':
+                # composites made before the user changes his own model ...
+                before = (ll.n_parameters(), ll.get_parameter_names())
+                pred0 = chi.PredictiveModel(mech, errs)
+                if user_fixes_more(mech, llspec):
+                    # ... keep their own, self-consistent configuration
+                    n_ = check_ll(ll, vals, step, world)
+                    if (n_, ll.get_parameter_names()) != before:
+                        fail('loglik.count_names', 'follows_user_model',
+                             'before %s, after the user fixed a parameter '
+                             'of his own model %s' % (before, (
+                                 n_, ll.get_parameter_names())), step)
+                    n_, _ = check_named(pred0, step, 'pred')
+                    s_ = call(pred0.sample, _in_support(vals, n_),
+                              [1.0, 2.0], 2, 1)
+                    if is_exc(s_) and not ok_exc(s_):
+                        fail('pred.accepts_vector', 'raises',
+                             'after the user fixed a parameter of his own '
+                             'model: %r\n%s' % (s_, s_.tb), step)
+                    world.probe('user_model_fixed_after_hand_over')
+                    # (the rest of the step uses a fresh pair)
+                    ll, mech, errs = bl(llspec, n_mech)
             # reconfiguration of the likelihood itself: fix, check, release
             names_ll = ll.get_parameter_names()
             for pos in op.get('fix', []):
@@ -606,7 +645,8 @@ def run(scenario, world):
             if n_mech < 1:
                 continue
             if 'toy' in llspec:
-                mech = zoo.toy_mech(n_mech, llspec['toy']['n_outputs'])
+                mech = zoo.toy_mech(toy_n(llspec, n_mech),
+                                    llspec['toy']['n_outputs'])
             else:
                 mech = zoo.build_mech(dict(llspec['mech']))
             mech = wrap_mech(mech, llspec)
@@ -715,13 +755,13 @@ def run(scenario, world):
             n_mech = pm.n_dim()
             n_out = llspec['toy']['n_outputs'] if 'toy' in llspec else None
             if 'toy' in llspec:
-                mech = zoo.toy_mech(n_mech, n_out)
+                mech = zoo.toy_mech(toy_n(llspec, n_mech), n_out)
             else:
                 mech = zoo.build_mech(dict(llspec['mech']))
-                if mech.n_parameters() != n_mech:
-                    continue
                 n_out = mech.n_outputs()
             mech = wrap_mech(mech, llspec)
+            if mech.n_parameters() != n_mech:
+                continue
             user_mechs.append(mech)
             times = op['times']
             data = np.array(op['data'])[:, :n_out, :len(times)]
@@ -928,7 +968,8 @@ def _generate(rng, index, tier):
                   'errors': errors}
     grid = [0.5, 1.0, 2.0, 3.5]
     if rng.random() < 0.25:
-        llspec['mech_wrap'] = rng.choice(['never_fixed', 'fix_release'])
+        llspec['mech_wrap'] = rng.choice(['never_fixed', 'fix_release',
+                                          'fixed'])
     llspec['times'] = [sorted(rng.sample(grid, rng.randint(1, 4)))
                        for _ in range(n_out)]
     llspec['obs'] = [[round(rng.uniform(0.2, 2.0), 2) for _ in ts]
